@@ -39,7 +39,7 @@ def gen_cases(tier: str, seed: int) -> list[dict]:
 
 
 def gen_network(rng) -> dict:  # noqa: ANN001
-    topo = rng.choice(["chain", "branch", "merge", "split", "cycle", "dimer", "cleavage", "split3", "merge3"])
+    topo = rng.choice(["chain", "branch", "merge", "split", "cycle", "dimer", "cleavage", "split3", "merge3", "double", "double_efflux", "double_influx"])
     v = round(rng.uniform(0.5, 2.0), 3)
     v2 = round(rng.uniform(0.3, 1.5), 3)
     if topo == "chain":
@@ -64,6 +64,16 @@ def gen_network(rng) -> dict:  # noqa: ANN001
     elif topo == "dimer":
         names = ["A", "B"]
         rx = [("vin", {"A": 1}, 2 * v), ("v1", {"A": -2, "B": 1}, v), ("vout", {"B": -1}, v)]
+    elif topo == "double":
+        # two molecules on both sides: every position-to-position transfer of the reaction occurs twice
+        names = ["A", "B"]
+        rx = [("vin", {"A": 1}, 2 * v), ("v1", {"A": -2, "B": 2}, v), ("vout", {"B": -1}, 2 * v)]
+    elif topo == "double_efflux":
+        names = ["A", "B"]
+        rx = [("vin", {"A": 1}, 2 * v + v2), ("v1", {"A": -1, "B": 1}, v2), ("vout2", {"A": -2}, v), ("vout", {"B": -1}, v2)]
+    elif topo == "double_influx":
+        names = ["A", "B"]
+        rx = [("vin2", {"A": 2}, v), ("v1", {"A": -1, "B": 1}, 2 * v), ("vout", {"B": -1}, 2 * v)]
     elif topo == "cleavage":
         names = ["B", "A"]
         rx = [("vin", {"B": 1}, v), ("v1", {"B": -1, "A": 2}, v), ("vout", {"A": -1}, 2 * v)]
@@ -80,6 +90,8 @@ def gen_network(rng) -> dict:  # noqa: ANN001
     unit = rng.choice([1.0, 1.0, 1.0, 1e-9, 1e-6, 1e3])
     rx = [(n, st, f * unit) for n, st, f in rx]
     labels = {c: rng.randint(1, 3) for c in names}
+    if topo == "double":
+        labels["B"] = labels["A"]
     if topo in ("dimer", "cleavage"):
         labels["A"] = rng.randint(1, 2)
         labels["B"] = 2 * labels["A"]
